@@ -96,13 +96,32 @@ func completeFrames(steps []Step) []Step {
 	return out
 }
 
-func parseFrames(u *Universe, steps []Step) (*frame, error) {
+// txSeg = one transaction of a behaviour: its frame tree and the steps [first, last] it covers; txend = index of
+// the "txend" step that follows it (-1: none)
+type txSeg struct {
+	root        *frame
+	first, last int
+	txend       int
+}
+
+// parseTxs splits a behaviour at its "txend" steps and builds the frame tree of every transaction.  The n-th frame
+// pushed in the BEHAVIOUR runs the contract FrameAddr[n] (the spec counts frames per behaviour, not per transaction).
+func parseTxs(u *Universe, steps []Step) ([]*txSeg, error) {
+	var segs []*txSeg
 	var stack []*frame
-	var root *frame
+	var cur *txSeg
 	npush := 0
 	for i := range steps {
 		st := &steps[i]
-		if root != nil && len(stack) == 0 {
+		if st.Op == "txend" {
+			if cur == nil || len(stack) != 0 || cur.txend >= 0 {
+				return nil, fmt.Errorf("txend at step %d outside the end of a transaction", i)
+			}
+			cur.txend = i
+			cur = nil
+			continue
+		}
+		if cur != nil && cur.root != nil && len(stack) == 0 {
 			return nil, fmt.Errorf("step %d after the end of the transaction", i)
 		}
 		switch st.Op {
@@ -116,10 +135,11 @@ func parseFrames(u *Universe, steps []Step) (*frame, error) {
 			}
 			npush++
 			if len(stack) == 0 {
-				if root != nil || st.S != 1 {
+				if cur != nil || st.S != 1 {
 					return nil, fmt.Errorf("bad root frame")
 				}
-				root = f
+				cur = &txSeg{root: f, first: i, last: -1, txend: -1}
+				segs = append(segs, cur)
 			} else {
 				p := stack[len(stack)-1]
 				f.creator = p.ctx
@@ -134,6 +154,9 @@ func parseFrames(u *Universe, steps []Step) (*frame, error) {
 			f := stack[len(stack)-1]
 			f.pop, f.popStep = st, i
 			stack = stack[:len(stack)-1]
+			if len(stack) == 0 {
+				cur.last = i
+			}
 		default:
 			if len(stack) == 0 {
 				return nil, fmt.Errorf("operation outside a frame at step %d", i)
@@ -142,10 +165,10 @@ func parseFrames(u *Universe, steps []Step) (*frame, error) {
 			f.items = append(f.items, item{st: st})
 		}
 	}
-	if root == nil || len(stack) != 0 {
-		return nil, fmt.Errorf("behaviour does not end with the end of the transaction")
+	if len(segs) == 0 || len(stack) != 0 {
+		return nil, fmt.Errorf("behaviour does not end with the end of a transaction")
 	}
-	return root, nil
+	return segs, nil
 }
 
 func childGas(depth int) uint64 { return uint64(1) << uint(60-6*(depth-1)) }
